@@ -383,6 +383,11 @@ def to_py(t, tree, pres, sd=False, marshal_mod=None):
             return list(items)
         if et == 'y' and choice == 0:
             return bytearray(tree)
+        if not sd and et in ('n', 'q', 'i', 'u', 'x', 't') and choice == 0 and tree and all(
+                isinstance(x, int) and 0 <= x <= 255 for x in tree):
+            # any sequence of small integers will do for an integer array - a bytearray is one (the array type decides
+            # the encoding, not the Python type of the container)
+            return bytearray(tree)
         if sd:
             if choice == 1:
                 nat = [to_py(et, x, pres, True, m) for x in tree]
